@@ -121,6 +121,21 @@ PROPS["C14"] = {
     "explanation": "skip_one: Ok((slice,_)) ==> slice == data[p..e) with value_end == Some(e)",
 }
 
+PROPS["C12"] = {
+    "level": "proof",
+    "verus": [{"unit": "iterators", "rlimit": 200}],
+    "kani": [],
+    "trusted_base": [T1, T2, T4, T6, T8, VSTD, PERR,
+                     "R8 guard lowering (match guards moved into the scrutinee tuple) applied to parse_array_elem_lazy / parse_entry_lazy",
+                     "parse_str acceptance contract assumed in this unit (Ok ==> exactly one grammar-valid string consumed)",
+                     "skip_one_unchecked (unchecked iterators) assumed total; agreement of unchecked iterators on well-formed input not proved",
+                     "LazyValue::new / JsonSlice carriers (Bytes, FastStr) are opaque (T4)"],
+    "level_text": "Verus proof of the per-call contract of the checked array/object iterators: first call demands the opening bracket, every call yields exactly the next well-formed element's span (after a correct separator / name / colon) or the end or an error, and after an error or the end the iterator yields nothing and does not move (latch); by induction over calls this is the statement",
+    "level_note": "checked iterators over the bounds-checked reader; key decoding is parse_str (assumed here)",
+    "technique": TECH_V,
+    "explanation": "parse_array_elem_lazy / parse_entry_lazy / next_elem_impl / next_entry_impl contracts over the RFC grammar spec",
+}
+
 PROPS["C17"] = {
     "level": "proof",
     "verus": [],
